@@ -306,6 +306,11 @@ func (c connectUnaryServerProtocol) extractProtocolResponseHeaders(statusCode in
 				end.err = connect.NewError(httpStatusCodeToRPC(statusCode), err)
 				return
 			}
+			if wireErr.Code == 0 {
+				// An error response without a code (or with the OK code) is
+				// still an error: infer the code from the HTTP status.
+				wireErr.Code = httpStatusCodeToRPC(statusCode)
+			}
 			end.err = wireErr.toConnectError()
 		}
 	}
